@@ -86,6 +86,7 @@ func runC12(r *Run) {
 	r.Rule("C12.3", "StepTimer and CancelTimer are assigned together: both results of one RoundTimer call or both nil; RoundTimer methods are invoked only by the state machine")
 	r.Rule("C12.4", "production timer: in the running phase a start request may panic only behind a non-blocking check that the cancel channel has not been closed (cancel-then-start never fails under any schedule)")
 	r.Rule("C12.5", "production timer: the elapsed channel is closed only in the timer-fired case; cancel closes its channel at most once (sync.Once)")
+	r.Rule("C12.7", "production timer: after every arming of the time.Timer the goroutine's next wait on every path includes timer.C (an armed timer is always listened to)")
 	r.Rule("C12.6", "production timer: after the time.Timer value has been received, no path waits on that channel again before the timer is re-armed (a second drain blocks forever and wedges every later request)")
 
 	ar := exploreStateMachine(w)
@@ -428,6 +429,53 @@ func runC12(r *Run) {
 	if nRecv == 0 {
 		r.Fail("C12.6", "tmstate.StandardRoundTimer.background#timer-value-received", w.Pos(bg.Pos()), "no receive from the time.Timer channel found")
 	}
+	// C12.7: an armed timer is listened to. After every (re-)arming of the time.Timer, the next wait
+	// of the goroutine on every path is a select that includes timer.C (and the cancel channel);
+	// waiting only for the next start request with a timer running means that timer never reports.
+	nArm := 0
+	a.Instrs(func(in ssa.Instruction) {
+		if in.Parent() != bg || !rearm(in) {
+			return
+		}
+		nArm++
+		var bad ssa.Instruction
+		seen := map[*ssa.BasicBlock]bool{}
+		var walk func(b *ssa.BasicBlock, from int)
+		walk = func(b *ssa.BasicBlock, from int) {
+			if bad != nil {
+				return
+			}
+			for _, x := range b.Instrs[from:] {
+				if sel, ok := x.(*ssa.Select); ok {
+					if !waitsOnTimer(sel) {
+						bad = sel
+					}
+					return
+				}
+				if u, ok := x.(*ssa.UnOp); ok && u.Op == token.ARROW {
+					if !isTimerC(u.X) {
+						bad = x
+					}
+					return
+				}
+			}
+			for _, nb := range b.Succs {
+				if !seen[nb] {
+					seen[nb] = true
+					walk(nb, 0)
+				}
+			}
+		}
+		walk(in.Block(), instrIndex(in)+1)
+		pos, det := w.InstrPos(in), "after arming the timer the goroutine's next wait includes timer.C on every path"
+		if bad != nil {
+			pos, det = w.InstrPos(bad), "after the timer is armed a path reaches a wait that does not include timer.C: the running timer is never observed (no elapse is ever reported for it)"
+		}
+		r.Check(bad == nil, "C12.7", fmt.Sprintf("tmstate.StandardRoundTimer.background#armed-then-listens%d", nArm), pos, det)
+	})
+	if nArm == 0 {
+		r.Fail("C12.7", "tmstate.StandardRoundTimer.background#armed-then-listens", w.Pos(bg.Pos()), "no arming of the time.Timer found")
+	}
 	// cancel closure: close under sync.Once
 	okOnce := false
 	for _, fn := range smFns {
@@ -708,6 +756,9 @@ func runC08(r *Run) {
 		}
 	}
 	r.Expect("C08.7", 8, "step handling")
+	// "chooses its prevote at most once / asks for its precommit exactly once" also rests on the
+	// latch that disarms the strategy's answer channel after the first answer of a round
+	r.Borrow(runC02, "C02", "C02.4", "C08.8", "the strategy's answer channels are disarmed after the first answer of a round on every continuing path, so a second choice in the same round cannot be recorded")
 }
 
 func uniqStrings(xs []string) []string {
